@@ -180,6 +180,77 @@ def run(ctx, res):
             res.sample({"integrated": True, "n": sc["n"], "updates": sc["n_updates"], "frame: max|dA|": dA, "max|df|": df, "dF": dF,
                         "relabel: max|dA|": dAs, "max|df| ": dfs})
     res.notes.append(f"largest integrated pair difference in this run: {worst:.3e}")
+    _degenerate_flows(ctx, res, rng)
+
+
+def _degenerate_flows(ctx, res, rng):
+    """frame pairs for velocity gradients on which a frame-dependent shortcut would act: rigid rotation about a coordinate axis
+    (exactly antisymmetric in the first frame, antisymmetric up to rounding in the other), vorticity-dominated flows with a strain
+    rate 1e-12 ... 1e-6 of the vorticity, and planar flows (third row and column zero) with non-zero trace"""
+    M = impl._minerals
+    # the strain-rate / vorticity ratio of the vorticity-dominated family sweeps 1e-12 ... 1e-6 on a grid (random offset) fine
+    # enough that a frame-dependent cut-off anywhere in that range puts the two frames of at least one pair on different sides
+    step = 0.2 if not ctx["thorough"] else 0.05
+    sweep = [-12 + float(rng.uniform(0, step)) + step * j for j in range(int(6 / step))]
+    plan = ["pure_spin", "planar_with_trace"] * (2 if not ctx["thorough"] else 10) + [("vorticity_dominated", e_) for e_ in sweep]
+    for k, item in enumerate(plan):
+        fam, expo = (item, None) if isinstance(item, str) else item
+        sc = solver.make_scenario(rng, k, nmax=8 if expo is None else 4, regimes=(4, 6), fields=["const"])
+        if expo is not None:
+            sc["n_updates"] = 1
+        ax = int(rng.integers(0, 3))
+        i, j = [(1, 2), (2, 0), (0, 1)][ax]
+        W = np.zeros((3, 3))
+        W[i, j], W[j, i] = -1.0, 1.0
+        W *= float(rng.uniform(0.5, 2.0))
+        if fam == "pure_spin":
+            L = W
+        elif fam == "vorticity_dominated":
+            S = rng.normal(size=(3, 3))
+            S = (S + S.T) / 2
+            S -= np.trace(S) / 3 * np.eye(3)
+            L = W + float(10 ** expo) * np.abs(W).max() * S / np.abs(np.linalg.eigvalsh(S)).max()
+            sc["span"] = float(rng.uniform(0.5, 1.5))
+        else:
+            L = np.zeros((3, 3))
+            L[:2, :2] = rng.normal(size=(2, 2))
+            L[0, 0] += 0.5 * np.sign(L[0, 0] + L[1, 1] or 1.0)      # clearly non-zero trace
+            sc["Mob"] = float(rng.choice([50.0, 125.0, 200.0]))
+        sc["field"] = solver.LField(L)
+        sc["field_kind"] = "degenerate:" + fam
+        sc["F0"] = np.eye(3) + 0.2 * rng.normal(size=(3, 3)) if k % 2 else np.eye(3)
+        if np.linalg.det(sc["F0"]) <= 0.1:
+            sc["F0"] = np.eye(3)
+        Q = _rand_Q(rng)
+        m0 = solver.build_mineral(sc)
+        A0, f0 = m0.orientations[0].copy(), m0.fractions[0].copy()
+        mk = lambda A: M.Mineral(phase=m0.phase, fabric=m0.fabric, regime=m0.regime, n_grains=sc["n"],  # noqa: E731
+                                 fractions_init=f0.copy(), orientations_init=np.ascontiguousarray(A))
+        m1, F1, _ = solver.run_scenario(sc, mineral=mk(A0), record=False)
+        scq = dict(sc, field=sc["field"].rotated(Q), F0=Q @ sc["F0"] @ Q.T)
+        m2, F2, _ = solver.run_scenario(scq, mineral=mk(A0 @ Q.T), record=False)
+        res.evaluations += 2
+        res.nontrivial(("c04deg", fam, k))
+        res.count("integrated_pairs:" + fam)
+        strain = max(solver.accumulated_strain(sc), solver.accumulated_strain(scq))
+        tol = 2 * (5e-3 + 1e-3 * (sc["n_updates"] + 2 * strain))
+        rep = dict(solver.scenario_json(sc), Q=Q.tolist(), family=fam)
+        dA = max(float(np.abs(b - a @ Q.T).max()) for a, b in zip(m1.orientations, m2.orientations))
+        df = max(float(np.abs(b - a).max()) for a, b in zip(m1.fractions, m2.fractions))
+        dF = float(np.abs(F2[-1] - Q @ F1[-1] @ Q.T).max() / max(1.0, np.abs(F1[-1]).max()))
+        if dF > tol:
+            res.violation(f"integrated:{fam}:F_not_frame_indifferent", f"deformation gradients differ between the frames by {dF:.3e} > {tol:.3e}", rep)
+        if fam == "pure_spin":
+            moved1 = float(np.abs(m1.orientations[-1] - A0).max())
+            moved2 = float(np.abs(m2.orientations[-1] - A0 @ Q.T).max())
+            if dA > tol and moved1 == 0.0 and moved2 > tol:
+                # the texture is frozen in the frame where L is exactly antisymmetric and co-rotates in the other one
+                res.violation("integrated:pure_spin:texture_frozen_in_exact_frame", f"rigid rotation: the texture does not move in the frame where "
+                              f"the velocity gradient is exactly antisymmetric but rotates by {moved2:.3f} in a rotated frame", rep)
+            elif dA > tol or df > tol:
+                res.violation("integrated:pure_spin:not_frame_indifferent", f"max|dA|={dA:.3e} max|df|={df:.3e} > {tol:.3e}", rep)
+        elif dA > tol or df > tol:
+            res.violation(f"integrated:{fam}:not_frame_indifferent", f"max|dA|={dA:.3e} max|df|={df:.3e} > {tol:.3e}", rep)
 
 
 def replay(data):
